@@ -97,6 +97,24 @@ theorem modelType_valid_iff (s : St) :
       obtain ⟨v, hv, h⟩ := hu; exact ⟨v, hv, Or.inl h⟩
     simp [hv]
 
+/-- the three error types: a class left unknown **or a state that is never initialised** makes the model underconstrained,
+    a class computed more than once makes it overconstrained, both at once unsuitably constrained -/
+theorem modelType_errors (s : St) :
+    let under := ∃ v ∈ s.vars, v.ty = .unknown ∨ v.ty = .shouldBeState
+    let over := ∃ v ∈ s.vars, v.ty = .overconstrained
+    (modelType s = .unsuitably ↔ under ∧ over) ∧ (modelType s = .underconstrained ↔ under ∧ ¬ over) ∧
+    (modelType s = .overconstrained ↔ ¬ under ∧ over) := by
+  have hu : (s.vars.any fun v => decide (v.ty = .unknown) || decide (v.ty = .shouldBeState)) = true ↔
+      ∃ v ∈ s.vars, v.ty = .unknown ∨ v.ty = .shouldBeState := by
+    simp only [List.any_eq_true, Bool.or_eq_true, decide_eq_true_eq]
+  have ho : (s.vars.any fun v => decide (v.ty = .overconstrained)) = true ↔ ∃ v ∈ s.vars, v.ty = .overconstrained := by
+    simp only [List.any_eq_true, decide_eq_true_eq]
+  unfold modelType
+  simp only []
+  rw [← hu, ← ho]
+  cases (s.vars.any fun v => decide (v.ty = .unknown) || decide (v.ty = .shouldBeState)) <;>
+    cases (s.vars.any fun v => decide (v.ty = .overconstrained)) <;> simp <;> (split <;> split <;> simp)
+
 /-- **nothing an equation reads is forgotten**: once an equation is typed, every class it mentions outside `diff` is
     either one of its recorded dependencies or one of the unknowns it computes -/
 theorem reads_recorded (s : St) (hp : ∀ e ∈ s.eqs, e.ty = .unknown) (i : Nat) (e0 e : E)
